@@ -27,6 +27,20 @@ pub struct E2Cfg {
     pub net_seed: u64,
     pub seeds: Vec<usize>,
     pub dead_grace_ms: u64,
+    /// per server: None = no seed host name; Some(slots) = its seed host name `seeds-<i>.sim:7000`
+    /// first resolves to these slots (slot < n: that server's address, slot >= n: an address nobody
+    /// listens on). Empty = name resolution is not simulated in this run.
+    #[serde(default)]
+    pub dns: Vec<Option<Vec<usize>>>,
+}
+
+/// Bound used by the seed set oracle: five refresh periods of dns_refresh_loop
+/// (DNS_POLLING_DURATION is 60 s). The property names no period, so the oracle only demands that a
+/// change of the resolution is reflected within this generous bound.
+const DNS_PERIOD_MS: u64 = 300_000;
+
+fn dns_host(i: usize) -> String {
+    format!("seeds-{i}.sim:7000")
 }
 
 #[derive(Clone, Debug, Serialize, Deserialize)]
@@ -51,6 +65,10 @@ pub enum E2Cmd {
     /// user code holds the state lock of server i for ms
     HoldLock { i: usize, ms: u64 },
     Inspect,
+    /// the name of server i's seed host now resolves to these slots (None: the lookup fails)
+    Dns { i: usize, slots: Option<Vec<usize>> },
+    /// compare server i's seed set with the resolution history (C17)
+    SeedCheck { i: usize },
     /// ask server i to gossip with j now (ChitchatHandle::gossip)
     GossipCmd { i: usize, j: usize },
     /// snapshot server i's pools, let exactly its next gossip round happen with nothing delivered to
@@ -288,6 +306,9 @@ struct Run {
     /// per server: (key, version) -> (value, kind) as the owner stored it; key -> latest version
     ledger: Vec<HashMap<(String, u64), (String, u8)>>,
     latest: Vec<HashMap<String, u64>>,
+    /// simulated name table and, per server, its history: (since ms, resolution or failure)
+    dns_table: HashMap<String, Vec<SocketAddr>>,
+    dns_hist: Vec<Vec<(u64, Option<Vec<SocketAddr>>)>>,
 }
 
 fn kind_of(st: &chitchat::DeletionStatus) -> u8 {
@@ -327,6 +348,16 @@ impl Run {
         }));
         let transport = SimTransport { net: net.clone() };
         let mut srv = Vec::new();
+        let mut dns_table: HashMap<String, Vec<SocketAddr>> = HashMap::new();
+        let mut dns_hist: Vec<Vec<(u64, Option<Vec<SocketAddr>>)>> = vec![Vec::new(); cfg.n];
+        for (i, e) in cfg.dns.iter().enumerate().take(cfg.n) {
+            if let Some(slots) = e {
+                let addrs: Vec<SocketAddr> = slots.iter().filter(|s| **s != i).map(|s| addr(*s)).collect();
+                dns_table.insert(dns_host(i), addrs.clone());
+                dns_hist[i].push((0, Some(addrs)));
+            }
+        }
+        chitchat::verif::set_dns_table(if cfg.dns.is_empty() { None } else { Some(dns_table.clone()) });
         for i in 0..cfg.n {
             let flag = Arc::new(AtomicBool::new(false));
             let f2 = flag.clone();
@@ -336,7 +367,13 @@ impl Run {
                 cluster_id: "c".into(),
                 gossip_interval: Duration::from_millis(cfg.interval_ms),
                 listen_addr: addr(i),
-                seed_nodes: cfg.seeds.iter().filter(|s| **s != i).map(|s| addr(*s).to_string()).collect(),
+                seed_nodes: cfg
+                    .seeds
+                    .iter()
+                    .filter(|s| **s != i)
+                    .map(|s| addr(*s).to_string())
+                    .chain(cfg.dns.get(i).and_then(|e| e.as_ref()).map(|_| dns_host(i)))
+                    .collect(),
                 failure_detector_config: FailureDetectorConfig { dead_node_grace_period: Duration::from_millis(cfg.dead_grace_ms), ..Default::default() },
                 // no tombstone GC in E2 runs: the ledger oracles below then need no taint classification
                 marked_for_deletion_grace_period: Duration::from_secs(10_000_000),
@@ -353,7 +390,7 @@ impl Run {
         }
         {
             let n = cfg.n;
-            Run { cfg, net, srv, step: 0, log: Vec::new(), keep_log, nontrivial: false, gossip_cmds: HashMap::new(), ledger: vec![HashMap::new(); n], latest: vec![HashMap::new(); n] }
+            Run { cfg, net, srv, step: 0, log: Vec::new(), keep_log, nontrivial: false, gossip_cmds: HashMap::new(), ledger: vec![HashMap::new(); n], latest: vec![HashMap::new(); n], dns_table, dns_hist }
         }
     }
 
@@ -380,6 +417,57 @@ impl Run {
         }
         let st = net.stalled_until.get(&addr(i)).copied().unwrap_or(0);
         self.srv[i].excused_until_ms.max(st)
+    }
+
+    /// C17, seed set under name resolution: server i's seed set is its literal seeds plus what its
+    /// seed host name resolved to at the last refresh. An address the name has not resolved to for
+    /// a full refresh period must be gone; one it resolved to throughout must be there.
+    async fn seed_check(&mut self, i: usize) -> Result<(), Violation> {
+        if i >= self.srv.len() || self.srv[i].ended || self.dns_hist[i].is_empty() {
+            return Ok(());
+        }
+        let Some(h) = self.srv[i].handle.as_ref() else { return Ok(()) };
+        let Ok(seeds) = tokio::time::timeout(Duration::from_millis(self.cfg.interval_ms * 10), h.with_chitchat(|c| c.seed_nodes())).await else {
+            return Ok(());
+        };
+        let now = self.now();
+        let from = now.saturating_sub(DNS_PERIOD_MS + 10);
+        let hist = &self.dns_hist[i];
+        // resolutions in force at some moment of [from, now]
+        let in_window: Vec<&Option<Vec<SocketAddr>>> =
+            hist.iter().enumerate().filter(|(k, (t, _))| *t <= now && hist.get(k + 1).map(|n| n.0 >= from).unwrap_or(true)).map(|(_, e)| &e.1).collect();
+        let literal: Vec<SocketAddr> = self.cfg.seeds.iter().filter(|s| **s != i).map(|s| addr(*s)).collect();
+        self.net.lock().unwrap().stats.inc("seed_checks");
+        self.nontrivial = true;
+        if hist.len() > 1 && now > hist[1].0 + DNS_PERIOD_MS + 10 {
+            self.net.lock().unwrap().stats.inc("probe_seed_set_after_a_refresh_that_saw_a_change");
+        }
+        for a in &seeds {
+            if !literal.contains(a) && !in_window.iter().any(|e| e.as_ref().map(|v| v.contains(a)).unwrap_or(false)) {
+                return Err(viol(
+                    self.step,
+                    "C17.stale_seed",
+                    format!("server {i} at {now} ms: seed set still holds {a}, which its seed host name has not resolved to for {DNS_PERIOD_MS} ms (five refresh periods)"),
+                ));
+            }
+        }
+        for a in &literal {
+            if !seeds.contains(a) {
+                return Err(viol(self.step, "C17.seed_missing", format!("server {i} at {now} ms: literal seed {a} is not in the seed set")));
+            }
+        }
+        if let Some(Some(first)) = in_window.first() {
+            for a in first {
+                if in_window.iter().all(|e| e.as_ref().map(|v| v.contains(a)).unwrap_or(false)) && !seeds.contains(a) {
+                    return Err(viol(
+                        self.step,
+                        "C17.seed_missing",
+                        format!("server {i} at {now} ms: {a}, which its seed host name resolved to throughout the last {DNS_PERIOD_MS} ms, is not in the seed set"),
+                    ));
+                }
+            }
+        }
+        Ok(())
     }
 
     async fn inspect(&mut self) -> Result<(), Violation> {
@@ -628,6 +716,7 @@ impl Run {
                     return Ok(());
                 }
                 let me = addr(i);
+                self.seed_check(i).await?;
                 // let the server drain what is already in its inbox (and fire any missed ticks):
                 // a 1 us sleep on the paused clock returns only when every other task is idle
                 tokio::time::sleep(Duration::from_micros(1)).await;
@@ -669,6 +758,22 @@ impl Run {
                     self.net.lock().unwrap().stats.inc("round_checks_without_syn");
                     return Ok(());
                 };
+                // a name refresh may have replaced the seed set while we waited for the round: a
+                // destination may come from either set, and a seed is only owed when both had one
+                let mut seeds = seeds;
+                let mut seed_owed = !seeds.is_empty();
+                if !self.dns_hist[i].is_empty() {
+                    let h = self.srv[i].handle.as_ref().unwrap();
+                    if let Ok(after) = tokio::time::timeout(Duration::from_millis(self.cfg.interval_ms * 10), h.with_chitchat(|c| c.seed_nodes())).await {
+                        let after: Vec<SocketAddr> = after.into_iter().filter(|a| *a != me).collect();
+                        seed_owed = seed_owed && !after.is_empty();
+                        for a in after {
+                            if !seeds.contains(&a) {
+                                seeds.push(a);
+                            }
+                        }
+                    }
+                }
                 if user_cmds_before > 0 {
                     return Ok(());
                 }
@@ -687,12 +792,37 @@ impl Run {
                 if dead.len() > live.len() && !tos.iter().any(|t| dead.contains(t)) {
                     return Err(viol(self.step, "C17.dead_not_forced", format!("{desc}: dead peers outnumber live ones but none was contacted")));
                 }
-                if live.is_empty() && !seeds.is_empty() && !tos.iter().any(|t| seeds.contains(t)) {
+                if live.is_empty() && seed_owed && !tos.iter().any(|t| seeds.contains(t)) {
                     return Err(viol(self.step, "C17.seed_not_forced", format!("{desc}: no live peer, a seed exists, yet no seed was contacted")));
                 }
                 Ok(())
             }
+            E2Cmd::Dns { i, slots } => {
+                let i = *i;
+                if i >= self.srv.len() || self.dns_hist[i].is_empty() {
+                    return Ok(());
+                }
+                let now = self.now();
+                let val: Option<Vec<SocketAddr>> = slots.as_ref().map(|v| v.iter().filter(|s| **s != i && **s < 8).map(|s| addr(*s)).collect());
+                match &val {
+                    Some(v) => {
+                        self.dns_table.insert(dns_host(i), v.clone());
+                        self.net.lock().unwrap().stats.inc("fault_dns_change");
+                    }
+                    None => {
+                        self.dns_table.remove(&dns_host(i));
+                        self.net.lock().unwrap().stats.inc("fault_dns_failure");
+                    }
+                }
+                chitchat::verif::set_dns_table(Some(self.dns_table.clone()));
+                self.dns_hist[i].push((now, val));
+                Ok(())
+            }
+            E2Cmd::SeedCheck { i } => self.seed_check(*i).await,
             E2Cmd::Inspect => {
+                for i in 0..self.srv.len() {
+                    self.seed_check(i).await?;
+                }
                 self.inspect().await?;
                 self.check_copies().await
             }
@@ -895,7 +1025,18 @@ fn gen_cmds(seed: u64) -> (E2Cfg, Vec<E2Cmd>) {
         net_seed: r.next(),
         seeds: (0..n).filter(|_| r.chance(0.5)).collect(),
         dead_grace_ms: *r.pick(&[20_000u64, 3_600_000]),
+        dns: Vec::new(),
     };
+    // name resolution runs draw from their own stream, so the other runs keep their commands
+    let mut r2 = Rng::new(seed ^ 0x5EED_D45_0000_0001);
+    let dns_on = r2.chance(0.3);
+    let mut cfg = cfg;
+    let slots_for = |r2: &mut Rng, i: usize| -> Vec<usize> { (0..n + 2).filter(|s| *s != i && r2.chance(0.45)).collect() };
+    if dns_on {
+        cfg.interval_ms = cfg.interval_ms.max(1000);
+        cfg.dns = (0..n).map(|i| if r2.chance(0.75) { Some(slots_for(&mut r2, i)) } else { None }).collect();
+    }
+    let cfg = cfg;
     let mut cmds = Vec::new();
     let steps = r.range(6, 30);
     let mut terminal_used = 0;
@@ -953,7 +1094,23 @@ fn gen_cmds(seed: u64) -> (E2Cfg, Vec<E2Cmd>) {
             18 => E2Cmd::RoundCheck { i },
             _ => E2Cmd::Inspect,
         };
+        let c = if dns_on && r2.chance(0.3) {
+            let i = r2.usize_below(n);
+            match r2.below(10) {
+                0..=3 => E2Cmd::Dns { i, slots: if r2.chance(0.15) { None } else { Some(slots_for(&mut r2, i)) } },
+                4..=6 => E2Cmd::Advance { ms: *r2.pick(&[20_000u64, 61_000, 125_000, 301_000, 301_000]) },
+                _ => E2Cmd::SeedCheck { i },
+            }
+        } else {
+            c
+        };
         cmds.push(c);
+    }
+    if dns_on {
+        cmds.push(E2Cmd::Advance { ms: *r2.pick(&[61_000u64, 301_000, 301_000, 361_000]) });
+        for i in 0..n {
+            cmds.push(E2Cmd::SeedCheck { i });
+        }
     }
     cmds.push(E2Cmd::Advance { ms: 2 * cfg.interval_ms });
     cmds.push(E2Cmd::Inspect);
@@ -1033,6 +1190,6 @@ impl Engine for E2 {
         ]
     }
     fn stub_components(&self) -> Vec<&'static str> {
-        vec!["chitchat/src/transport/udp.rs and channel.rs (replaced by a scripted Transport/Socket; decode-or-skip mirrors UdpSocket::receive_one)", "DNS (seeds are IP literals, dns_refresh_loop never starts)"]
+        vec!["chitchat/src/transport/udp.rs and channel.rs (replaced by a scripted Transport/Socket; decode-or-skip mirrors UdpSocket::receive_one)", "the system resolver (seed host names resolve through a scripted table behind the verif hook; dns_refresh_loop itself runs)"]
     }
 }
